@@ -575,7 +575,7 @@ def c08(tier, seed):
     for j in range(300 if tier == 'quick' else 3000):
         g = FiltGen(seed * 977 + j, POOL_NAMES[j % len(POOL_NAMES)])
         g.run(rng.randrange(4, 14))
-        g.do('obs f'); g.do('!snap f')
+        g.do('obs f'); g.do('!filt f'); g.do('!snap f')
         for op in ['snap f s1', 'iter f', 'q f simplices', 'q f count', 'q f counts', 'q f euler', 'q f indices']:
             g.do(op); g.do('!same f')
         order = g.copy_order()
@@ -772,10 +772,10 @@ def c11(tier, seed):
         L.do('flag s t'); L.do('!samefam f t')
         yield L.case()
     # growing: a flag complex, then edges added and growFlagComplex, against rebuilding from scratch
-    n = 700 if tier == 'quick' else 6000
+    n = 700 if tier == 'quick' else 2500
     for j in range(n):
         pool = POOL_NAMES[j % len(POOL_NAMES)]
-        npts = rng.randrange(3, 6 if tier == 'quick' else 8)
+        npts = rng.randrange(3, 6 if tier == 'quick' else 7)
         allE = list(itertools.combinations(range(npts), 2))
         rng.shuffle(allE)
         k0 = rng.randrange(0, len(allE))
@@ -1034,6 +1034,12 @@ def c15(tier, seed):
         other = rng.choice(fams)
         L = Live(pool, 'C15 relabelDisjointFrom')
         L.many(base); L.many(build_lines(other, 'c1', 'faces'))
+        L.do('!addfrom-fn c1 c0 fresh'); L.do('!addfrom-fn c0 c1 tuple')
+        if rng.random() < 0.6:
+            # names are not tied to orders: a name of c0 used for a simplex of another order in c1
+            n1 = L.toks('c1'); n0 = [t for t in L.toks('c0') if t not in n1]
+            if n1 and n0:
+                L.do('relabel c1 {%s:%s}' % (n1[-1] if rng.random() < 0.7 else rng.choice(n1), rng.choice(n0)))
         L.do('!snap c0 c1')
         L.do('relabeldisj c0 c1'); L.do('!disjoint-names c0 c1'); L.do('!same c1'); L.do('obs c0')
         L.do('relabeldisj c0 c1'); L.do('obs c0')
